@@ -6,7 +6,6 @@ import (
 	"math/big"
 	"sort"
 
-	sdkmath "cosmossdk.io/math"
 
 	bettypes "github.com/sge-network/sge/x/bet/types"
 	markettypes "github.com/sge-network/sge/x/market/types"
@@ -52,54 +51,6 @@ func (s *Snap) owed() map[string][3]*big.Int {
 		}
 	}
 	return r
-}
-
-// carryDrift attributes a negative or excessive stake of a freshly placed bet to known finding D3
-// (x/bet/types/payout.go CalculateBetAmountInt adds its own carry to the carry again): it is true when the
-// recorded stakes are exactly what the double-counting carry yields for the recorded payout parts (the last part
-// either computed the same way or taking the remaining requested stake) AND the same parts under the corrected carry
-// (carry = expected - rounded) would have been sound (no negative stake, total not above the requested stake).
-// Any other negative/excessive stake is reported without the tag and is not covered by the finding.
-func carryDrift(odds *big.Int, reqStake *big.Int, parts []*bettypes.BetFulfillment) bool {
-	n := len(parts)
-	if n == 0 {
-		return false
-	}
-	den := sdkmath.LegacyNewDecFromBigIntWithPrec(odds, 18).Sub(sdkmath.LegacyOneDec())
-	if !den.IsPositive() {
-		return false
-	}
-	cD, cC := sdkmath.LegacyZeroDec(), sdkmath.LegacyZeroDec()
-	sD, sC := make([]*big.Int, n), make([]*big.Int, n)
-	for i, f := range parts {
-		q := sdkmath.LegacyNewDecFromInt(f.PayoutProfit).Quo(den)
-		eD := q.Add(cD)
-		rD := eD.RoundInt()
-		cD = cD.Add(eD.Sub(sdkmath.LegacyNewDecFromInt(rD)))
-		sD[i] = rD.BigInt()
-		eC := q.Add(cC)
-		rC := eC.RoundInt()
-		cC = eC.Sub(sdkmath.LegacyNewDecFromInt(rC))
-		sC[i] = rC.BigInt()
-	}
-	sumA, sumC := z(), z()
-	for i := 0; i < n-1; i++ {
-		if parts[i].BetAmount.BigInt().Cmp(sD[i]) != 0 || sC[i].Sign() < 0 {
-			return false
-		}
-		sumA.Add(sumA, parts[i].BetAmount.BigInt())
-		sumC.Add(sumC, sC[i])
-	}
-	last := parts[n-1].BetAmount.BigInt()
-	// last part computed like the others (the wager ended in the partial branch)
-	if last.Cmp(sD[n-1]) == 0 && sC[n-1].Sign() >= 0 && add(sumC, sC[n-1]).Cmp(reqStake) <= 0 {
-		return true
-	}
-	// last part took the remaining requested stake
-	if last.Cmp(sub(reqStake, sumA)) == 0 && sub(reqStake, sumC).Sign() >= 0 {
-		return true
-	}
-	return false
 }
 
 func (m *Monitors) betMonitors(c *Chain, o Op, res string, prev, cur *Snap) []string {
@@ -472,13 +423,9 @@ func (m *Monitors) betMonitors(c *Chain, o Op, res string, prev, cur *Snap) []st
 				bad("C08", "wager of %s accepted below the minimum %s", o.Amount, prev.BetParams.Constraints.MinAmount)
 			}
 			stakes, pays := z(), z()
-			d3 := ""
-			if carryDrift(o.OddsVal, sub(o.Amount, nb.Fee.BigInt()), nb.BetFulfillment) {
-				d3 = " [D3 carry drift of CalculateBetAmountInt]"
-			}
 			for _, f := range nb.BetFulfillment {
 				if f.BetAmount.IsNegative() || f.PayoutProfit.IsNegative() {
-					bad("C03", "bet %d has a negative backing part (%s, %s)%s", nb.ID, f.BetAmount, f.PayoutProfit, d3)
+					bad("C03", "bet %d has a negative backing part (%s, %s)", nb.ID, f.BetAmount, f.PayoutProfit)
 				}
 				stakes.Add(stakes, f.BetAmount.BigInt())
 				pays.Add(pays, f.PayoutProfit.BigInt())
@@ -488,7 +435,7 @@ func (m *Monitors) betMonitors(c *Chain, o Op, res string, prev, cur *Snap) []st
 			}
 			reqStake := sub(o.Amount, nb.Fee.BigInt())
 			if stakes.Cmp(reqStake) > 0 {
-				bad("C03", "bet %d took stake %s, more than the requested %s%s", nb.ID, stakes, reqStake, d3)
+				bad("C03", "bet %d took stake %s, more than the requested %s", nb.ID, stakes, reqStake)
 			}
 			// promised winnings = floor(reqStake * (odds-1))
 			prom := new(big.Int).Mul(reqStake, sub(o.OddsVal, prec))
